@@ -282,5 +282,24 @@ def replay(ctx, spell, bv, B_, mj):
     return bool(bad), det
 
 
+def native(ctx):
+    S = ctx.S
+    mj = S.dump(SRC)['module']
+    B_ = {v['name']: v['disc'] for v in S.schema['enums']['Binding']}
+    n = 30 if ctx.tier == 'quick' else 300
+    types = ['f32', 'i32', 'u32', 'vec2<f32>', 'vec3<f32>', 'vec4<f32>', 'vec2<i32>', 'vec3<u32>', 'vec4<u32>', 'vec2<f64>', 'vec4<i32>', 'f64']
+    done = False
+    for i in range(n):
+        names = ctx.rng.sample(['a0', 'a2', 'b0', 'b1'], 2)
+        spell = {nm: ctx.rng.choice(types) for nm in names}
+        locs = ctx.rng.sample([0, 1, 2, 3, 4, 9, 15, 2 ** 31], 2)
+        bv = {nm: (B_['Location'], l) for nm, l in zip(names, locs)}
+        rep, det = replay(ctx, spell, bv, B_, mj)
+        if rep and not done:
+            done = True
+            ctx.report('C07/native', f'member types {spell}, bindings {bv}: {det.get("failed") or det.get("real")}', det, True, det)
+        elif not rep:
+            ctx.replayed_ok += 1
+
 if __name__ == '__main__':
-    sys.exit(main('C07', run))
+    sys.exit(main('C07', run, native))
